@@ -24,6 +24,9 @@ pub enum SQuery {
     Max,
     AboveMax,
     Value(Fl),
+    /// the maximum attainable score minus j x 1e-7 (j = 1..=12): still reached by the best word, but below the
+    /// maximum by less than single precision resolves for scores of ordinary size
+    JustBelowMax(u8),
 }
 
 #[derive(Clone, Debug, Serialize, Deserialize)]
@@ -111,7 +114,20 @@ fn mat_for(abc: Abc, tier: Tier) -> BoxedStrategy<MatSpec> {
                 m.regime = "tiny".into();
                 m
             });
-            prop_oneof![4 => lib, 4 => fin, 2 => grid, 1 => tiny]
+            // in a fifth of the declared matrices one or two rows say nothing: all their real cells hold the same
+            // (non-zero) value - spacer columns of a bipartite motif after adding a constant
+            let flat = prop_oneof![4 => Just(Vec::new()), 1 => proptest::collection::vec((any::<usize>(), prop_oneof![Just(1.5f32), Just(-2.25f32), Just(0.5f32), -6.0f32..6.0]), 1..=2)];
+            (prop_oneof![4 => lib, 4 => fin, 2 => grid, 1 => tiny], flat).prop_map(move |(mut mat, flat)| {
+                if mat.regime != "library" && mat.regime != "tiny" {
+                    for (i, v) in flat {
+                        let n = mat.rows.len();
+                        for x in mat.rows[i % n][..k - 1].iter_mut() {
+                            *x = Fl(v);
+                        }
+                    }
+                }
+                mat
+            })
         })
         .boxed()
 }
@@ -127,6 +143,7 @@ fn strategy(tier: Tier) -> BoxedStrategy<Case> {
                 3 => any::<usize>().prop_map(SQuery::Between),
                 1 => Just(SQuery::Max),
                 1 => Just(SQuery::AboveMax),
+                2 => (1u8..=12).prop_map(SQuery::JustBelowMax),
                 2 => (-60.0f32..60.0).prop_map(|v| SQuery::Value(Fl(v))),
             ];
             let pq = prop_oneof![
@@ -188,6 +205,7 @@ fn classify(case: &Case, k: usize, bgf: &[f32], info: &mut CaseInfo) {
     info.class_if(bgf[..k - 1].iter().any(|&x| (x - u).abs() > 1e-6), "non-uniform-background");
     info.class_if(case.mat.rows.iter().any(|r| r[k - 1].0.is_finite()), "finite-wildcard-column");
     info.class_if(bgf[k - 1] > 0.0, "background-gives-the-wildcard-some-frequency");
+    info.class_if(case.mat.rows.iter().any(|r| r[0].0 != 0.0 && r[..k - 1].iter().all(|x| x.0 == r[0].0)), "a-row-of-equal-non-zero-cells");
     info.class(match case.mat.regime.as_str() { "library" => "mat:library", "grid" => "mat:grid-valued", "tiny" => "mat:tiny-cells(~2e-6)", _ => "mat:finite" });
 }
 
@@ -219,6 +237,7 @@ fn run12<A: Alphabet>(case: &Case, info: &mut CaseInfo) -> Option<Failure> {
             SQuery::Min => queries.push((t.min, "min")),
             SQuery::Max => queries.push((t.max, "max")),
             SQuery::AboveMax => queries.push((t.max + 1.5, "above-max")),
+            SQuery::JustBelowMax(j) => queries.push((t.max - (*j).clamp(1, 12) as f64 * 1e-7, "just-below-max")),
             SQuery::Value(v) => queries.push((v.0 as f64, "value")),
             SQuery::Attainable(_) => {
                 if ai < att.len() {
@@ -312,7 +331,7 @@ fn run12<A: Alphabet>(case: &Case, info: &mut CaseInfo) -> Option<Failure> {
                 }
             }
         }
-        if last_converged && steps < MAX_STEPS {
+        if last_converged {
             // `pvalue()` only when the bounded run converged (it would spin otherwise)
             let pv = tfmp.pvalue(s);
             let g = 10f64.powi(-(steps as i32));
@@ -338,7 +357,7 @@ impl Sub for PvalueRanges {
         "pvalue-ranges"
     }
     fn rule(&self) -> &'static str {
-        "DNA width 2..8 (quick) / ..12 (thorough), protein 2..3; library-made, arbitrary finite and grid-valued (every cell a multiple of 1/2 .. 1/32, 0.2, 0.05 or 1) matrices (wildcard column -inf, = row minimum, or arbitrary finite) x uniform / non-uniform backgrounds, also ones giving the wildcard some frequency (the real symbols then carry less than unit mass per position); 6..12 scores per matrix (below min, min, exactly attainable, just above attainable, between, max, above max, arbitrary); approximate_pvalue driven for at most 8 refinement steps; every step: 0 <= pmin <= pmax <= total mass, P(S>=s+(M+1)g) <= pmin, pmax <= P(S>=s-(M+2)g) against exact meet-in-the-middle enumeration over the real symbols; pvalue() checked when the bounded run converged; non-trivial = M >= 3, a query strictly inside (min, max) and >= 2 refinement steps"
+        "DNA width 2..8 (quick) / ..12 (thorough), protein 2..3; library-made, arbitrary finite and grid-valued (every cell a multiple of 1/2 .. 1/32, 0.2, 0.05 or 1) matrices (wildcard column -inf, = row minimum, or arbitrary finite) x uniform / non-uniform backgrounds, also ones giving the wildcard some frequency (the real symbols then carry less than unit mass per position); 6..12 scores per matrix (below min, min, exactly attainable, just above attainable, between, max, 1e-7..1.2e-6 below max, above max, arbitrary); approximate_pvalue driven for at most 8 refinement steps; every step: 0 <= pmin <= pmax <= total mass, P(S>=s+(M+1)g) <= pmin, pmax <= P(S>=s-(M+2)g) against exact meet-in-the-middle enumeration over the real symbols; pvalue() checked when the bounded run converged; non-trivial = M >= 3, a query strictly inside (min, max) and >= 2 refinement steps"
     }
     fn cases(&self, tier: Tier) -> u64 {
         tier.pick(20_000, 150_000)
